@@ -33,6 +33,7 @@ From FT Require Import Base.Dict Model.Edit Model.EditExec Model.Toggle Model.To
   Proofs.EditInv Proofs.EditSeg Proofs.EditFresh Proofs.ToggleProofs Proofs.ToggleExample.
 From FT Require Gen.Toggle_gen Proofs.ToggleTie Proofs.ToggleTieInv Proofs.ToggleRefuted.
 From FT Require Proofs.AnnotatorsTie.
+From FT Require Model.EditCtor Proofs.EditCtor Proofs.EditCtorDict Gen.Ctor_gen Proofs.CtorTie.
 Import ListNotations.
 Open Scope Z_scope.
 
@@ -255,6 +256,22 @@ Proof. exact @FT.Proofs.AnnotatorsTie.gen_RegionpropsAnnotator_update_eq. Qed.
 Theorem C10_edge_update_is_generated : ltac:(let t := type of @FT.Proofs.AnnotatorsTie.gen_EdgeAnnotator_update_WF in exact t).
 Proof. exact @FT.Proofs.AnnotatorsTie.gen_EdgeAnnotator_update_WF. Qed.
 
+(* ---- the constructor, translated: TrackAnnotator._get_max_id_and_map (the scan of supplied ids), the bookkeeping part
+        of TrackAnnotator.__init__, Tracks._check_existing_feature and the activate-or-compute loop of
+        Tracks._setup_core_computed_features of the model (Model/EditCtor.v: scan_ids, scan_books, first_has,
+        ctor_step) equal the code translated on every run from annotators/_track_annotator.py and
+        data_model/tracks.py (Gen/Ctor_gen.v; translator harness/translate_ctor.py, fail closed; its callees are the
+        generated enable / activate definitions of Gen/Toggle_gen.v).  Not translated: the first loop of
+        _setup_core_computed_features, which collects the keys from the annotators (the model's ctor_keys), and the
+        composition Tracks.__init__ (tied by the constructor correspondence of every run instead). ---- *)
+Theorem C10_constructor_is_generated : FT.Proofs.CtorTie.ctor_tie_statement.
+Proof. exact FT.Proofs.CtorTie.ctor_tie. Qed.
+
+(* ---- construction with a prepared registry: exactly the registered keys that an annotator can manage are switched
+        on, nothing else changes (graph, array, history, registry, the caller's table), the lookups are the scans. ---- *)
+Theorem C10_prepared_registry_activation : ltac:(let t := type of @FT.Proofs.EditCtorDict.construct_dict_spec in exact t).
+Proof. exact @FT.Proofs.EditCtorDict.construct_dict_spec. Qed.
+
 Example C10_ex_hyps :
   cfg_keys c10_st /\ W_reg c10_st /\ seg c10_st = Some c10_sg /\ W_seg c10_st /\ comps_disjoint [[2]; [1]].
 Proof. exact (conj c10_cfg_keys (conj c10_W_reg (conj eq_refl (conj c10_W_seg c10_disjoint)))). Qed.
@@ -338,3 +355,5 @@ Print Assumptions C10_generated_along_runs.
 Print Assumptions C10_ids_recomputed_then_undo_refuted.
 Print Assumptions C10_regionprops_update_is_generated.
 Print Assumptions C10_edge_update_is_generated.
+Print Assumptions C10_constructor_is_generated.
+Print Assumptions C10_prepared_registry_activation.
